@@ -54,10 +54,12 @@ def recOracle (data : Bytes) (ann : List String) : Except String (Option Bytes) 
 def step (st : St) (opl : List String) : St × String :=
   let (op, ann) := splitAnnot opl
   match op with
-  | ["sign", key, id, src] =>
+  | [sg, key, id, src] =>
+    if sg ≠ "sign" ∧ sg ≠ "signw" then (st, if st.cur.isNone then "nochunk" else "bad-op") else
     match Driver.hexToBytes key, Driver.hexToBytes id, Driver.parseSrc src with
     | some _, some id, some data =>
-      match Aurora.Cac.new keccak seg d stale0 data with
+      -- `sign`: wrap `cac.New(data)`; `signw`: wrap `cac.NewWithDataSpan(data)` (span chosen by the caller)
+      match (if sg = "sign" then Aurora.Cac.new keccak seg d stale0 data else newWithDataSpan keccak seg d stale0 data) with
       | .error _ => ({ cur := none }, "err-cac")
       | .ok ch =>
         match ann.map Driver.hexToBytes with
